@@ -894,6 +894,158 @@ def check_pathloss_numeric_forms(chk, fam, hist):
                             skip=lambda kind, label: label.endswith("float16"))
 
 
+
+# ----------------------------------------------------------------------
+# presentations of ONE distance value: every way a caller can hand over the same number must give the same
+# loss, for values below / at / above the small-distance threshold, both policies, every entry point
+# ----------------------------------------------------------------------
+def presentations(x):
+    """[(label, object, value actually presented as float, is_array_like)]"""
+    x = float(x)
+    out = [("python_float", x, x), ("numpy_float64", np.float64(x), x),
+           ("numpy_float32", np.float32(x), float(np.float32(x))),
+           ("0d_array", np.array(x), x), ("0d_array_float32", np.array(x, dtype=np.float32), float(np.float32(x))),
+           ("1_element_array", np.array([x]), x), ("1_element_list", [x], x),
+           ("nd_array", np.full((2, 1, 2), x), x),
+           ("non_contiguous_view", np.array([x, 7.0, x, 7.0])[::2], x)]
+    ro = np.array([x, x])
+    ro.flags.writeable = False
+    out.append(("read_only_array", ro, x))
+    if x == round(x) and abs(x) < 2 ** 31:
+        out += [("python_int", int(x), x), ("numpy_int64", np.int64(int(x)), x),
+                ("0d_array_int64", np.array(int(x)), x), ("1_element_int_list", [int(x)], x)]
+    return out
+
+
+def _pres_shape(p):
+    return np.shape(p)
+
+
+PRESENTATION_ROOTS_EXTRA = {"general": [(("new", (("n", 2), ("C", -30.0))),)]}   # threshold 31.6 km: integer distances below it
+
+
+def check_presentations(chk, fam, hist):
+    F = FAMILIES[fam]
+    site = SITE[fam]
+    for hsd in (False, True):
+        st = build(fam, hist)
+        if st.problem is not None:
+            return
+        obj = st.obj
+        obj.handle_small_distances_bool = hsd
+        chk.count("eval_states")
+        for q in ((F["queries"][0], F["queries"][-1]) if len(F["queries"]) > 1 else (F["queries"][0],)):
+            slope, offset = F["line"](st.model, q)
+            d0 = 10.0 ** (-offset / slope)
+            values = [d0 * 1e-3, d0 * 0.5, d0, d0 * 1.01, d0 * 3.0, d0 * 1e3]
+            values += [v for v in (1.0, 5.0, 31.0, 32.0, 100.0) if d0 * 1e-4 < v < d0 * 1e5]
+            cf_tol = F["cf_tol"](st.model)
+            for x in values:
+                for entry, f in (("calc_path_loss_dB", obj.calc_path_loss_dB), ("calc_path_loss", obj.calc_path_loss)):
+                    results = []
+                    for label, pobj, xv in presentations(x):
+                        ref = slope * math.log10(xv) + offset
+                        zone = "below" if ref < -ZERO_MARGIN_DB else ("above" if ref > ZERO_MARGIN_DB else "at")
+                        case = {"part": "presentation", "family": fam, "history": [_ev_json(h) for h in hist],
+                                "policy_clamp": hsd, "query": q, "entry": entry, "value": x, "presentation": label}
+                        keep = pobj.tobytes() if isinstance(pobj, np.ndarray) else None
+                        r = _call(f, pobj, **q)
+                        chk.count("eval_presentations")
+                        chk.outcome("presentation", (fam, entry, label, zone, hsd))
+                        if keep is not None and pobj.tobytes() != keep:
+                            chk.fail((site, "presentation", "input_modified"), case, observed=label)
+                        if zone == "at":
+                            chk.count("excluded_presentation_within_zero_margin")
+                            continue
+                        want = 0.0 if zone == "below" else ref
+                        if entry == "calc_path_loss":
+                            want = 10.0 ** (-want / 10.0)
+                        if zone == "below" and not hsd:
+                            # HARD (property statement): "distances too small for the model either raise or clamp
+                            # to 0 dB according to the configured policy"
+                            if r[0] != "raise":
+                                chk.fail((site, "presentation", "small_distance_does_not_raise"), case,
+                                         observed="%s: %r" % (label, _short(r)), expected="an exception")
+                            continue
+                        if r[0] not in ("v", "a"):
+                            chk.fail((site, "presentation",
+                                      "small_distance_not_clamped" if zone == "below" else "admissible_distance_fails"),
+                                     case, observed="%s: %r" % (label, r), expected=want)
+                            continue
+                        got = np.asarray(r[1], dtype=float)
+                        if got.shape != _pres_shape(pobj):
+                            chk.fail((site, "presentation", "wrong_result_shape"), case,
+                                     observed="%s: %r" % (label, got.shape), expected=_pres_shape(pobj))
+                            continue
+                        if zone == "below":
+                            if np.any(got != want):
+                                chk.fail((site, "presentation", "small_distance_not_clamped"), case,
+                                         observed="%s: %r" % (label, got.ravel()[:3]), expected=want)
+                            continue
+                        eps = float(np.finfo(np.float32).eps) if "float32" in label else 0.0
+                        if entry == "calc_path_loss_dB":
+                            tol = cf_tol + FLOAT_FORM_C * eps * FLOAT_FORM_DB_SCALE
+                        else:
+                            tol = want * (TOL_REL + 0.2303 * (cf_tol - TOL_DB) * 1.001
+                                          + FLOAT_FORM_C * eps * (1.0 + 0.2303 * FLOAT_FORM_DB_SCALE))
+                        if np.any(~(np.abs(got - want) <= tol)):
+                            chk.fail((site, "presentation", "value"), case,
+                                     observed="%s: %r" % (label, got.ravel()[:3]), expected=want)
+                        if eps == 0.0:
+                            results.append((label, float(got.ravel()[0])))
+                    # all exact presentations of the same value agree to rounding
+                    if results:
+                        vals = np.array([v for _, v in results])
+                        spread = float(vals.max() - vals.min())
+                        lim = TOL_DB if entry == "calc_path_loss_dB" else TOL_REL * float(np.abs(vals).max())
+                        if not spread <= lim:
+                            chk.fail((site, "presentation", "presentations_of_one_value_disagree"),
+                                     {"part": "presentation", "family": fam, "history": [_ev_json(h) for h in hist],
+                                      "policy_clamp": hsd, "query": q, "entry": entry, "value": x,
+                                      "presentation": "*"}, observed=results[:6], expected="one value")
+            # mixed arrays: only the offending entries are clamped, in every array presentation
+            if hsd:
+                mix = np.array([d0 * 0.5, d0 * 3.0, d0 * 1e-3, d0 * 1e3])
+                refm = slope * np.log10(mix) + offset
+                wantm = np.where(refm < 0, 0.0, refm)
+                ro = mix.copy()
+                ro.flags.writeable = False
+                for label, pobj in (("list", mix.tolist()), ("read_only_array", ro), ("2d", mix.reshape(2, 2)),
+                                    ("non_contiguous_view", np.repeat(mix, 2)[::2]),
+                                    ("float32", mix.astype(np.float32))):
+                    r = _call(obj.calc_path_loss_dB, pobj, **q)
+                    chk.count("eval_presentations")
+                    case = {"part": "presentation", "family": fam, "history": [_ev_json(h) for h in hist],
+                            "policy_clamp": True, "query": q, "entry": "calc_path_loss_dB", "value": "mixed",
+                            "presentation": label}
+                    tol = cf_tol + (FLOAT_FORM_C * float(np.finfo(np.float32).eps) * FLOAT_FORM_DB_SCALE
+                                    if label == "float32" else 0.0)
+                    if r[0] != "a" or r[1].size != 4 or np.any(r[1].ravel()[[0, 2]] != 0.0) or \
+                            np.any(np.abs(r[1].ravel()[[1, 3]] - wantm[[1, 3]]) > tol):
+                        chk.fail((site, "presentation", "mixed_array_clamp"), case,
+                                 observed="%s: %r" % (label, _short(r)), expected=wantm)
+        if F["inverse"]:
+            for p in (10.0, 100.0, 150.5):
+                res = []
+                for label, pobj, pv in presentations(p):
+                    if "list" in label:
+                        continue                      # which_distance_dB documents float | np.ndarray only
+                    r = _call(obj.which_distance_dB, pobj)
+                    chk.count("eval_presentations")
+                    case = {"part": "presentation", "family": fam, "history": [_ev_json(h) for h in hist],
+                            "policy_clamp": hsd, "query": {}, "entry": "which_distance_dB", "value": p,
+                            "presentation": label}
+                    slope, offset = F["line"](st.model, F["queries"][0])
+                    want = 10.0 ** ((pv - offset) / slope)
+                    eps = float(np.finfo(np.float32).eps) if "float32" in label else 0.0
+                    tol = want * (TOL_REL + (math.log(10.0) / slope) * (F["cf_tol"](st.model) - TOL_DB) * 1.001
+                                  + FLOAT_FORM_C * eps * 60.0)
+                    if r[0] not in ("v", "a") or np.shape(r[1]) != _pres_shape(pobj) or \
+                            np.any(~(np.abs(np.asarray(r[1], dtype=float) - want) <= tol)):
+                        chk.fail((site, "presentation", "which_distance_dB"), case,
+                                 observed="%s: %r" % (label, _short(r)), expected=want)
+
+
 # ----------------------------------------------------------------------
 # queries as events: [query(d), toggle policy, query(d)], [query(d), caller mutates the result, query(d)] ...
 # ----------------------------------------------------------------------
@@ -1203,6 +1355,13 @@ def main(chk: Check):
                                 warnings.simplefilter("ignore")
                                 check_pathloss_numeric_forms(c, f2, h)
                         c.states += 1
+                    for h in (inits if thorough else inits[:2]) + PRESENTATION_ROOTS_EXTRA.get(f2, []):
+                        case = {"part": "presentation", "family": f2, "history": [_ev_json(e) for e in h]}
+                        with c.guard((SITE[f2], "presentation"), case):
+                            with warnings.catch_warnings():
+                                warnings.simplefilter("ignore")
+                                check_presentations(c, f2, h)
+                        c.states += 2
             else:
                 for case in antenna_cases():
                     with c.guard(("antenna_" + case["kind"],), case):
@@ -1219,6 +1378,7 @@ def main(chk: Check):
         chk.require_outcomes("inverse_offered", 4)
         chk.require_outcomes("antenna", 8)
         chk.require_outcomes("numeric_form", 100)
+        chk.require_outcomes("presentation", 200)
         chk.require_outcomes("query_outcome", 30)
 
 
@@ -1235,6 +1395,13 @@ def replay(case, chk: Check):
             with warnings.catch_warnings():
                 warnings.simplefilter("ignore")
                 check_query_state(chk, fam, hist, build_q(fam, hist))
+        return
+    if case.get("part") == "presentation":
+        base = {"part": "presentation", "family": fam, "history": case["history"]}
+        with chk.guard((SITE[fam], "presentation"), base):
+            with warnings.catch_warnings():
+                warnings.simplefilter("ignore")
+                check_presentations(chk, fam, hist)
         return
     if case.get("part") == "dtype":
         base = {"part": "dtype", "family": fam, "history": case["history"]}
